@@ -64,6 +64,7 @@ pub struct Sc {
     pub history: u8,
 }
 
+#[derive(Clone, Copy)]
 pub struct C06;
 
 /// The output state of one group of qubits that no multi-qubit gate connects to the rest.
